@@ -1588,6 +1588,30 @@ def _selected_sets(conds, xvar):
     return out
 
 
+def _canon_conds(conds, dom, renames):
+    """frozenset of canonical atoms of a conjunction: a positive membership (also `x in A or x in B`) of a variable in a
+    set of known kind becomes ('sel', var role, atoms of the set); every other atom (polarity, text with roles renamed)"""
+    def role_text(e):
+        e = _clone(e)
+        for n in ast.walk(e):
+            if isinstance(n, ast.Name) and n.id in renames:
+                n.id = renames[n.id]
+        return norm(e)
+    out = set()
+    for c in conds:
+        for t, pol in _flatten_and(*c):
+            done = False
+            for var, role in renames.items():
+                sel = _selected_sets([(t, pol)], var)
+                if len(sel) == 1 and dom.of(sel[0]) is not None:
+                    out.add(('sel', role, dom.of(sel[0])))
+                    done = True
+                    break
+            if not done:
+                out.add((pol, role_text(t)))
+    return frozenset(out)
+
+
 def _exclusions(conds, ovar):
     """conds: [(test, polarity)] known to hold; -> ([S with `ovar not in S`], [other (test, polarity)])"""
     ex, other = [], []
@@ -2062,6 +2086,7 @@ def rule_saved(repo):
                 r.ok(m, DEL_QUAL, f"{cons} filtered by membership in the removed connectables")
                 # (b) purge from the same map, in place
                 purged = False
+                strips = []
                 for lp in [n for n in walk_no_nested(delf) if isinstance(n, ast.For)]:
                     it = lp.iter
                     meth = None
@@ -2094,6 +2119,9 @@ def rule_saved(repo):
                             continue
                         # what is subtracted: all removed connectables, or exactly the members that were saved
                         exact = False
+                        strip = None          # condition under which an element leaves the set
+                        if covers_removed(val):
+                            strip = frozenset([('sel', 'X', dom.of(val))])
                         if isinstance(val, ast.Name) and not covers_removed(val):
                             addx = [n for n in walk_no_nested(lp) if isinstance(n, ast.Call) and isinstance(n.func, ast.Attribute)
                                     and n.func.attr == 'add' and norm(n.func.value) == val.id and len(n.args) == 1]
@@ -2104,16 +2132,37 @@ def rule_saved(repo):
                                 c2 = [(g2.test, g2.polarity) for g2 in guards_of(stmt_of(n), stop=lp) if g2.kind in ('if', 'exit')]
                                 if fresh and any(covers_removed(S2) for S2 in _selected_sets(c2, xa)):
                                     exact = True
+                                    strip = _canon_conds(c2, dom, {xa: 'X', k2: 'K'})
                         if not (exact or covers_removed(val)):
                             continue
                         if Fp == Fq and da0[1] == Fq:
                             purged = True
+                            strips.append((strip, s2))
                         elif da0[1] == Fq or Fp == Fq:
                             r.bad(m, DEL_QUAL, norm(s2), f"entries saved from {da0[1]} are purged from {Fp}: {da0[1]} keeps the "
                                   f"deleted objects and {Fp} loses live ones", s2.lineno)
                             purged = None
                 if purged is True:
                     r.ok(m, DEL_QUAL, f"{base}._dsl.{F}[{kvar}] -= saved members")
+                    # every element that is stripped must be saved: same condition on both (no extra test on the block / owner)
+                    save = _canon_conds(conds, dom, {xvar: 'X', kvar: 'K'})
+                    # presence tests of the key in the very table being iterated are tautologies
+                    for stp, s2 in strips:
+                        if stp is None:
+                            continue
+
+                        def fmt(cs):
+                            return sorted(f"X in {_fmt_atoms(c[2], False)}" if c[0] == 'sel' else f"{'' if c[0] else 'not '}{c[1]}" for c in cs)
+                        cons2 = f"{L}: saved under the condition it is stripped from {Fq} under"
+                        if stp == save:
+                            r.ok(m, DEL_QUAL, cons2)
+                        else:
+                            extra, missing = fmt(save - stp), fmt(stp - save)
+                            r.bad(m, DEL_QUAL, f"{L}: strip and save conditions differ",
+                                  f"an element leaves {base}._dsl.{Fq}[{kvar}] when {fmt(stp)} but is recorded in {L} only when "
+                                  f"{fmt(save)} (extra on save: {extra}; extra on strip: {missing}): an entry that is stripped but "
+                                  f"not saved is never re-attached, e.g. a grand-parent block that reads a port of the replaced "
+                                  f"component loses the read (and its WR<RD scheduling edge) after replace_component", line)
                 elif purged is False:
                     r.bad(m, DEL_QUAL, f"{base}._dsl.{F}[{kvar}] -= saved members", f"the saved members are not removed in place from "
                           f"{base}._dsl.{F} (aliased by the top-level all_* map): the block keeps reading/writing a "
@@ -3205,6 +3254,16 @@ MUTANTS = [
        "connection_pairs.append( x )", 'R-C15-saved'),
     _m('seed-double-buffer-tested-against-tops-own-blocks', COMP, "      if blk in parent._dsl.update_ff:\n        written._dsl.needs_double_buffer = True",
        "      if blk in top._dsl.update_ff:\n        written._dsl.needs_double_buffer = True", 'R-C15-saved'),
+    _m('seed-read-saved-only-for-parent-blocks', COMP, """            to_save.add( x )
+            saved_upblk_reads.append( (blk, repr(x)) )""", """            to_save.add( x )
+            if blk in parent._dsl.upblk_reads:
+              saved_upblk_reads.append( (blk, repr(x)) )""", 'R-C15-saved'),
+    _m('call-stripped-for-more-than-is-saved', COMP, """          if x in removed_connectables or x in removed_interfaces:
+            to_save.add( x )
+            saved_upblk_calls.append( (blk, repr(x)) )""", """          if x in removed_connectables or x in removed_interfaces:
+            to_save.add( x )
+          if x in removed_connectables:
+            saved_upblk_calls.append( (blk, repr(x)) )""", 'R-C15-saved'),
     _m('R4b-writes-restored-into-reads', COMP, "      parent._dsl.upblk_writes[blk].add( written )", "      parent._dsl.upblk_reads[blk].add( written )",
        'R-C15-saved'),
     _m('R4d-purge-rebinds-instead-of-in-place', COMP, "        top._dsl.all_upblk_calls[blk] -= to_save\n",
@@ -3728,6 +3787,23 @@ EQUIV = [
        "      if blk in top._dsl.all_update_ff:\n        written._dsl.needs_double_buffer = True"),
     _m('double-buffer-test-negated-early-continue', COMP, "      if blk in parent._dsl.update_ff:\n        written._dsl.needs_double_buffer = True",
        "      if blk not in parent._dsl.update_ff:\n        continue\n      written._dsl.needs_double_buffer = True"),
+    _m('read-save-hoisted-before-strip', COMP, """            to_save.add( x )
+            saved_upblk_reads.append( (blk, repr(x)) )""", """            saved_upblk_reads.append( (blk, repr(x)) )
+            to_save.add( x )"""),
+    _m('write-filter-as-early-continue', COMP, """        for x in writes:
+          if x in removed_connectables:
+            to_save.add( x )
+            saved_upblk_writes.append( (blk, repr(x)) )""", """        for x in writes:
+          if x not in removed_connectables:
+            continue
+          to_save.add( x )
+          saved_upblk_writes.append( (blk, repr(x)) )"""),
+    _m('call-strip-and-save-in-separate-ifs-same-condition', COMP, """          if x in removed_connectables or x in removed_interfaces:
+            to_save.add( x )
+            saved_upblk_calls.append( (blk, repr(x)) )""", """          if x in removed_connectables or x in removed_interfaces:
+            to_save.add( x )
+          if x in ( removed_interfaces | removed_connectables ):
+            saved_upblk_calls.append( (blk, repr(x)) )"""),
     _m('add-sets-via-update', COMP, "    top._dsl.all_signals       |= added_signals", "    top._dsl.all_signals.update( added_signals )"),
 ]
 
